@@ -15,7 +15,7 @@ func main() {
 		os.Exit(2)
 	}
 	if sd := 0; true {
-		fmt.Sscan(os.Getenv("VERIF_SEED"), &sd)
+		fmt.Sscan(os.Getenv("FVC_SOLVER_SEED"), &sd)
 		if sd < 0 {
 			sd = -sd
 		}
